@@ -341,7 +341,7 @@ func (r *runner) runCase(c *ctxFile, tw *treeWorld, cs *caseRec, mode string, su
 	case len(res.Added) == 0:
 		verdict = "nothing"
 	}
-	tag := fmt.Sprintf("|m=%s|pk=%s|mode=%s", cs.D.M, cs.D.Pk, mode)
+	tag := fmt.Sprintf("|m=%s|pk=%s", cs.D.M, cs.D.Pk)
 	info := fmt.Sprintf(" [context %s; batch %s; candidate: %s; delivered %s; verdict %s err=%v]", c.key(), cs.D, what, mode, verdict, err)
 
 	// ---- property predicates on the real observations
